@@ -768,6 +768,26 @@ impl<'tcx> Cx<'tcx> {
                         fj.set("ty", J::s(ts(*fty)));
                         if let Some(si) = fv.try_to_scalar_int() {
                             fj.set("v", J::Int(si.to_bits(si.size()) as i128));
+                        } else if let (ConstValue::Scalar(rustc_middle::mir::interpret::Scalar::Ptr(ptr, _)), TyKind::Ref(_, inner, _)) = (*fv, fty.kind()) {
+                            // a field that is a reference to an integer (e.g. `Some(&0u8)`): record the pointee
+                            if inner.is_integral() || inner.is_bool() {
+                                let (prov, off) = ptr.prov_and_relative_offset();
+                                if let Some(rustc_middle::mir::interpret::GlobalAlloc::Memory(mem)) = tcx.try_get_global_alloc(prov.alloc_id()) {
+                                    if let Ok(l) = tcx.layout_of(TypingEnv::fully_monomorphized().as_query_input(*inner)) {
+                                        let sz = l.size.bytes() as usize;
+                                        let o0 = off.bytes() as usize;
+                                        let alloc = mem.inner();
+                                        if o0 + sz <= alloc.len() && sz <= 16 {
+                                            let bytes = alloc.inspect_with_uninit_and_ptr_outside_interpreter(o0..o0 + sz);
+                                            let mut v: u128 = 0;
+                                            for (i, b) in bytes.iter().enumerate() {
+                                                v |= (*b as u128) << (8 * i);
+                                            }
+                                            fj.set("pv", J::Int(v as i128));
+                                        }
+                                    }
+                                }
+                            }
                         }
                         fs.push(fj);
                     }
